@@ -15,7 +15,7 @@
 use nom::{
     branch::alt,
     character::complete::{char, i32, multispace0},
-    combinator::map,
+    combinator::{map, map_res},
     multi::separated_list1,
     sequence::{delimited, preceded, terminated},
     IResult,
@@ -97,7 +97,14 @@ fn key_path(input: &[u8]) -> IResult<&[u8], KeyPath<'_>> {
     alt((
         map(i32, KeyPath::Index),
         map(string, KeyPath::QuotedName),
-        map(raw_string, KeyPath::Name),
+        // a name can not start with a digit, digits that are not a valid index are invalid.
+        map_res(raw_string, |name| {
+            if name.as_bytes()[0].is_ascii_digit() {
+                Err(Error::InvalidKeyPath)
+            } else {
+                Ok(KeyPath::Name(name))
+            }
+        }),
     ))(input)
 }
 
